@@ -677,7 +677,23 @@ func TestVerifReplay(t *testing.T) {
 			out := map[string]any{"pre": v.dump(ctx)}
 			var results []map[string]any
 			for _, op := range sc.Ops {
+				// observe wake-ups: a publish awaiter per subscription, registered before the operation
+				subs, _ := v.client.Subscription.Query().IDs(ctx)
+				waiters := map[uuid.UUID]actions.PublishNotifier{}
+				for _, id := range subs {
+					waiters[id] = actions.PublishAwaiter(id)
+				}
 				r := v.runOp(ctx, op)
+				woken := []string{}
+				for id, ch := range waiters {
+					select {
+					case <-ch:
+						woken = append(woken, id.String())
+					default:
+						actions.CancelPublishAwaiter(id, ch)
+					}
+				}
+				r["woken"] = woken
 				v.history = append(v.history, r)
 				results = append(results, r)
 			}
